@@ -229,7 +229,11 @@ class Engine(TorchDispatchMode):
     def _var(self, name, kind):
         if name in self.vars:
             return self.vars[name][0]
-        v = {"b": z3.Bool, "i": z3.Int, "f": z3.Real, "ind": z3.Real}[kind](name)
+        if kind == "fp":
+            from . import fp as _fp
+            v = z3.FP(name, _fp.S32)
+        else:
+            v = {"b": z3.Bool, "i": z3.Int, "f": z3.Real, "ind": z3.Real}[kind](name)
         self.vars[name] = (v, kind)
         if kind == "ind":
             self._add(z3.Or(v == 0, v == 1))
@@ -244,6 +248,19 @@ class Engine(TorchDispatchMode):
             nm = f"{name}{list(ix)}"
             if k == "b" and ind:
                 arr[ix] = T.mk_ind(self._var(nm, "ind"))
+                continue
+            if k == "f" and dtype == torch.float32 and self.opts.get("fp32"):
+                # bit-exact mode: an IEEE float32 variable (finite unless nan=True), bounds are float32 constants
+                from . import fp as _fp
+                v = self._var(nm, "fp")
+                self._add(z3.Not(z3.fpIsInf(v)))
+                if not nan:
+                    self._add(z3.Not(z3.fpIsNaN(v)))
+                if lo is not None:
+                    self._add(z3.Or(z3.fpIsNaN(v), z3.fpGEQ(v, _fp.val(lo).t)))
+                if hi is not None:
+                    self._add(z3.Or(z3.fpIsNaN(v), z3.fpLEQ(v, _fp.val(hi).t)))
+                arr[ix] = _fp.FP(v)
                 continue
             v = self._var(nm, k)
             if lo is not None:
@@ -301,6 +318,20 @@ class Engine(TorchDispatchMode):
 
     def check(self, *extra):
         t0 = time.time()
+        if self.opts.get("fp32"):
+            # bit-exact mode: the eager bit-blasting tactic decides float32 queries orders of magnitude faster than the lazy default
+            try:
+                s = z3.Tactic("qffp").solver()
+                s.set("timeout", self.qtimeout)
+                s.add(*self.pc)
+                s.add(*extra)
+                r = s.check()
+                if r != z3.unknown:
+                    self.t_solver += time.time() - t0
+                    self.nqueries += 1
+                    return str(r), (s.model() if r == z3.sat else None)
+            except z3.Z3Exception:
+                pass
         self.solver.push()
         for x in extra:
             self.solver.add(x)
